@@ -33,8 +33,8 @@ AllDevs == {"relu_clip_negmax", "clip_clip_disjoint", "relu_clip_no_dtype_raise"
             "clip_inputs_pre_opset11", "expand_rank_extension", "expand_binop_drops_attrs",
             "materialize_allowzero", "slice_split_odd", "split_num_outputs_pre_opset18",
             "flatten_zero_dim", "reshape_matmul_ignores_inner_shapes", "matmul_add_gemm_bias_shape",
-            "gemm_matmul_add_ignores_attrs", "gemm_matmul_add_bias_shape", "pad_convinteger_zero_point", "autopad_ignores_dilation"}
-AllFamilies == {"relus_clips", "min_max", "no_op", "dropout", "cast_cos", "scatter_static", "scatter_dynamic", "expand_binop", "materialize", "collapse_slices", "casts", "no_op_expand", "reshape_reshape", "flatten", "slice_split", "transposes", "unsqueeze2", "squeeze_reshape", "matmul_reshape", "matmul_add_gemm", "gemm_matmul_add", "optional_bias", "pad_conv"}
+            "gemm_matmul_add_ignores_attrs", "gemm_matmul_add_bias_shape", "pad_convinteger_zero_point", "autopad_ignores_dilation", "conv_affine_scalar_rank", "bn_gemm_beta"}
+AllFamilies == {"relus_clips", "min_max", "no_op", "dropout", "cast_cos", "scatter_static", "scatter_dynamic", "expand_binop", "materialize", "collapse_slices", "casts", "no_op_expand", "reshape_reshape", "flatten", "slice_split", "transposes", "unsqueeze2", "squeeze_reshape", "matmul_reshape", "matmul_add_gemm", "gemm_matmul_add", "optional_bias", "pad_conv", "conv_affine", "batchnorm"}
 Big == Menu = "thorough"
 
 RAISE == [dt |-> "RAISE", shape |-> <<>>, data |-> <<>>]
@@ -566,7 +566,7 @@ SS_AllParams(z) ==
    UNION {{[xs |-> xs, ax |-> ax, b0 |-> b0, e0 |-> e0, b1 |-> b1, e1 |-> e1, opset |-> os, known |-> kn, order |-> od] :
               ax \in {-1, 0, 1}, b0 \in {0, 1}, e0 \in {Last(xs) \div 2, CeilDiv(Last(xs), 2)}, b1 \in {Last(xs) \div 2, CeilDiv(Last(xs), 2)},
               e1 \in {Last(xs), Last(xs) - 1}, os \in {13, 18}, kn \in BOOLEAN, od \in {"ab", "ba"}} :
-          xs \in {<<2>>, <<3>>, <<4>>, <<5>>, <<2, 4>>, <<2, 3>>, <<4, 2>>}}
+          xs \in (IF Big THEN {<<2>>, <<3>>, <<4>>, <<5>>, <<2, 4>>, <<2, 3>>, <<4, 2>>, <<2, 5>>} ELSE {<<2>>, <<3>>, <<4>>, <<2, 4>>, <<2, 3>>})}
 SS_X(q) == T("f32", q.xs, [k \in 1..Numel(q.xs) |-> k])
 SS_HostValid(q) == NormAxis(q.ax, Len(q.xs)) # -1000
 SS_Lhs(q) == IF ~SS_HostValid(q) THEN ERR
@@ -654,7 +654,7 @@ MatMul(a, b) ==
                     osh == bo \o (IF Rank(a) = 1 THEN <<>> ELSE <<M>>) \o (IF Rank(b) = 1 THEN <<>> ELSE <<N>>)
                 IN T(a.dt, osh, full.data)
 SameNumel(S, n) == {s \in S : Numel(s) = n}
-BM_Shapes == IF Big THEN ShapesUpTo(3, {1, 2}) \ {<<>>} ELSE {<<2>>, <<1, 2>>, <<2, 1>>, <<2, 2>>, <<1, 2, 2>>, <<2, 1, 2>>, <<2, 2, 1>>, <<4>>, <<1, 4>>}
+BM_Shapes == IF Big THEN ShapesUpTo(3, {1, 2}) \ {<<>>} ELSE {<<2>>, <<1, 2>>, <<2, 1>>, <<2, 2>>, <<1, 2, 2>>, <<2, 1, 2>>, <<2, 2, 1>>}
 NOSB == <<-1>>
 \* shape of MatMul(s, t) or <<-1000>>
 MMShape(s, t) ==
@@ -834,6 +834,48 @@ PC_Rewrite(q, devs) ==
 PC_Unknown(q) == q.decl = "none" \/ q.pkind \in {"ginput", "ginit"} \/ (q.kind = "normalize" /\ q.auto \in {"SAME_UPPER", "SAME_LOWER"} /\ (q.decl # "static" \/ q.odecl # "static"))
 
 -----------------------------------------------------------------------------
+(* conv_affine: _fuse_conv_affine.py   x [1, 2, L, 1], w [M=2, 2, k, 1], b [2]; scalars scale / offset of shape cs    *)
+(*   affine_conv: Conv(x * scale + offset, w, b; pads = [0,0,0,0])  ->  Conv(x, w * scale, b + offset * sum(w))        *)
+(*   conv_affine: Conv(x, w, b) * scale + offset                    ->  Conv(x, w * scale, b * scale + offset)         *)
+CF_Params(z) ==
+   {[rule |-> r, sc |-> sc, of |-> of, cs |-> cs, ckind |-> "init", wkind |-> "init", pads |-> pd, k |-> k] :
+        r \in {"affine_conv", "conv_affine"}, sc \in {-1, 2}, of \in {0, 1, -2}, cs \in {<<>>, <<1>>, <<1, 1>>, <<1, 1, 1, 1>>},
+        pd \in {"zero", "absent", "nonzero"}, k \in {1, 2}}
+   \cup {[rule |-> r, sc |-> 2, of |-> 1, cs |-> <<>>, ckind |-> kc, wkind |-> kw, pads |-> "zero", k |-> 2] :
+        r \in {"affine_conv", "conv_affine"}, kc \in Kinds, kw \in Kinds}
+CF_L == 3
+CF_X3 == T("f32", <<1, 2, CF_L>>, [i \in 1..(2 * CF_L) |-> i - 3])
+CF_W3(q) == T("f32", <<2, 2, q.k>>, [i \in 1..(4 * q.k) |-> (2 * (i % 3)) - 1])
+CF_B == <<5, -1>>
+CF_Pads(q) == IF q.pads = "nonzero" THEN <<1, 0>> ELSE <<0, 0>>
+\* Conv with bias on the 3-D view, returned as [1, M, out, 1]
+CF_Conv(x3, w3, bias, pads) ==
+   LET c == PC_Conv(x3, w3, pads[1], pads[2], 1, 1, 0, "f32") IN
+   IF IsErr(c) THEN ERR
+   ELSE T("f32", c.shape \o <<1>>, [i \in 1..Len(c.data) |-> c.data[i] + bias[(((i - 1) \div c.shape[3]) % 2) + 1]])
+CF_Bcast(t, cs) == IF IsErr(t) THEN ERR ELSE T(t.dt, BroadcastShape(t.shape, cs), t.data)       \* multiplying by a one-element tensor of shape cs
+CF_Lhs(q) ==
+   IF q.rule = "affine_conv"
+   THEN CF_Bcast(CF_Conv(Map1(CF_X3, "f32", LAMBDA v : v * q.sc + q.of), CF_W3(q), CF_B, CF_Pads(q)), q.cs)
+   ELSE CF_Bcast(Map1(CF_Conv(CF_X3, CF_W3(q), CF_B, CF_Pads(q)), "f32", LAMBDA v : v * q.sc + q.of), q.cs)
+\* affine_conv spells out pads = [0, 0, 0, 0]
+CF_Match(q, devs) == q.rule = "conv_affine" \/ q.pads = "zero"
+CF_Check(q, devs) ==
+   IF ~HasConstValue(q.wkind, devs) \/ ~HasConstValue(q.ckind, devs) THEN "fail"
+   \* design: the fused bias b * scale + offset must stay 1-D, and x * scale must not change the rank of the Conv input
+   ELSE IF "conv_affine_scalar_rank" \notin devs /\ Len(q.cs) > 1 THEN "fail"
+   ELSE "ok"
+CF_Rewrite(q, devs) ==
+   LET w == CF_W3(q)
+       sw == Map1(w, "f32", LAMBDA v : v * q.sc)
+       SumW(m) == SeqSum([j \in 1..(2 * q.k) |-> w.data[(m - 1) * 2 * q.k + j]])
+   IN IF q.rule = "affine_conv"
+      THEN Res(CF_Conv(CF_X3, sw, [m \in 1..2 |-> CF_B[m] + q.of * SumW(m)], CF_Pads(q)), TRUE)
+      ELSE IF Len(q.cs) > 1 THEN Res(ERR, TRUE)                  \* bias of shape broadcast([2], cs): not 1-D, the model does not load
+      ELSE Res(CF_Conv(CF_X3, sw, [m \in 1..2 |-> CF_B[m] * q.sc + q.of], CF_Pads(q)), TRUE)
+CF_Unknown(q) == q.wkind \in {"ginput", "ginit"} \/ q.ckind \in {"ginput", "ginit"}
+
+-----------------------------------------------------------------------------
 (* Gemm on integers (alpha, beta integers); NoT = optional input absent *)
 NoT == [dt |-> "NONE", shape |-> <<>>, data |-> <<>>]
 Tr2(t) == Transpose(t, <<1, 0>>)
@@ -880,12 +922,19 @@ MG_Rewrite(q, devs) == Res(Gemm(MG_A(q), MG_B(q), MG_C(q), MG_TA(q), MG_TB(q), 1
 MG_Unknown(q) == q.decl = "none"
 
 (* gemm_matmul_add: _gemm_to_matmul_add.py   Reshape(Gemm(Reshape(a, sa), b, c, alpha=1, beta=1), sc) -> Add(MatMul(a, b), c) *)
+GM_Rec(as, sa, cs, sc, ta, tb, al, be) == [as |-> as, sa |-> sa, bs |-> <<2, 3>>, cs |-> cs, sc |-> sc, ta |-> ta, tb |-> tb, alpha |-> al, beta |-> be]
+GM_AS == {<<2, 2>>, <<1, 2, 2>>, <<2, 2, 2>>, <<2, 1, 2>>}
+GM_SA == {<<2, 2>>, <<4, 2>>, <<2, 4>>, <<1, 4>>}
+GM_CS == {<<>>, <<3>>, <<1, 3>>, <<2, 3>>, <<4, 3>>, <<4, 1>>, <<2, 1>>}
+GM_SC == {<<2, 3>>, <<1, 2, 3>>, <<2, 2, 3>>, <<2, 1, 3>>, <<4, 3>>, <<3, 2>>}
+\* shape arithmetic of the host: Reshape(a, sa) is 2-D [M, 2] (after transA), c broadcasts one way to [M, 3], sc holds M * 3 elements
+GM_ShapeOK(q) == LET ra == IF q.ta = 1 THEN <<q.sa[2], q.sa[1]>> ELSE q.sa IN
+                 /\ Numel(q.sa) = Numel(q.as) /\ ra[2] = 2
+                 /\ Len(q.cs) <= 2 /\ BroadcastShape(q.cs, <<ra[1], 3>>) = <<ra[1], 3>>
+                 /\ Numel(q.sc) = ra[1] * 3
 GM_AllParams(z) ==
-   {[as |-> as, sa |-> sa, bs |-> <<2, 3>>, cs |-> cs, sc |-> sc, ta |-> ta, tb |-> tb, alpha |-> al, beta |-> be] :
-        as \in {<<2, 2>>, <<1, 2, 2>>, <<2, 2, 2>>, <<2, 1, 2>>}, sa \in {<<2, 2>>, <<4, 2>>, <<2, 4>>, <<1, 4>>},
-        cs \in {<<>>, <<3>>, <<1, 3>>, <<2, 3>>, <<4, 3>>, <<4, 1>>, <<2, 1>>},
-        sc \in {<<2, 3>>, <<1, 2, 3>>, <<2, 2, 3>>, <<2, 1, 3>>, <<4, 3>>, <<3, 2>>},
-        ta \in {NONE, 0, 1}, tb \in {NONE, 0, 1}, al \in {NONE, 1, 2}, be \in {NONE, 1, 2}}
+   {GM_Rec(as, sa, cs, sc, ta, tb, 1, 1) : as \in GM_AS, sa \in GM_SA, cs \in GM_CS, sc \in GM_SC, ta \in {NONE, 0, 1}, tb \in {NONE, 0, 1}}
+   \cup {GM_Rec(as, sa, cs, sc, NONE, NONE, al, be) : as \in GM_AS, sa \in GM_SA, cs \in {<<3>>, <<2, 3>>}, sc \in GM_SC, al \in {NONE, 1, 2}, be \in {NONE, 1, 2}}
 GM_A(q) == T("f32", q.as, [k \in 1..Numel(q.as) |-> k])
 \* with transB the stored b is [N, K]
 GM_BS(q) == IF q.tb = 1 THEN <<q.bs[2], q.bs[1]>> ELSE q.bs
@@ -895,7 +944,7 @@ AttrI(v, dflt) == IF v = NONE THEN dflt ELSE v
 GM_Lhs(q) == IF Numel(q.sa) # Numel(q.as) THEN ERR
              ELSE LET g == Gemm(Reshape(GM_A(q), q.sa, FALSE), GM_B(q), GM_C(q), q.ta = 1, q.tb = 1, AttrI(q.alpha, 1), AttrI(q.beta, 1))
                   IN IF IsErr(g) THEN ERR ELSE Reshape(g, q.sc, FALSE)
-GM_Params(z) == {q \in GM_AllParams(0) : ~IsErr(GM_Lhs(q)) /\ ((q.alpha # 1 \/ q.beta # 1) => q.ta = NONE /\ q.tb = NONE)}
+GM_Params(z) == {q \in GM_AllParams(0) : GM_ShapeOK(q)}
 \* the pattern spells out alpha = 1.0 and beta = 1.0; transA / transB are "other attributes"
 GM_Match(q, devs) == q.alpha = 1 /\ q.beta = 1
 GM_AsBM(q) == [as |-> q.as, bs |-> GM_BS(q), sc |-> q.sc]
@@ -929,6 +978,65 @@ OB_Rewrite(q, devs) == Res(OB_Eval(q, NoT), TRUE)
 OB_Unknown(q) == q.bkind \in {"ginput", "ginit"}
 
 -----------------------------------------------------------------------------
+(* batchnorm: _fuse_batchnorm.py   BatchNormalization(Gemm | Conv | ConvTranspose (kernel 1)) -> the inbound op with  *)
+(* scaled weights and bias.  Exact sub-family: var + epsilon is a perfect square (epsilon = 0 spelled out, var in     *)
+(* {1, 4}) and gamma a multiple of std, so BN(y) = (y - mean) * s + beta with the integer s = gamma / std per channel.  *)
+BN_Gamma == <<2, -4>>
+BN_Beta == <<3, -1>>
+BN_Mean == <<1, 2>>
+BN_Params(z) ==
+   {[op |-> "Gemm", bias |-> bi, alpha |-> al, beta |-> be, tb |-> tb, g |-> 1, pkind |-> "init", wkind |-> "init", shared |-> FALSE, var |-> v] :
+        bi \in {"absent", "vec", "scalar", "row"}, al \in {NONE, 1, 2}, be \in {NONE, 1, 2}, tb \in BOOLEAN, v \in {1, 4}}
+   \cup {[op |-> op, bias |-> bi, alpha |-> NONE, beta |-> NONE, tb |-> FALSE, g |-> g, pkind |-> "init", wkind |-> "init", shared |-> FALSE, var |-> v] :
+        op \in {"Conv", "ConvTranspose"}, bi \in {"absent", "vec"}, g \in {1, 2}, v \in {1, 4}}
+   \cup {[op |-> op, bias |-> "vec", alpha |-> NONE, beta |-> NONE, tb |-> FALSE, g |-> 1, pkind |-> pk, wkind |-> wk, shared |-> sh, var |-> 4] :
+        op \in {"Gemm", "Conv", "ConvTranspose"}, pk \in Kinds, wk \in Kinds, sh \in BOOLEAN}
+BN_S(q) == [c \in 1..2 |-> BN_Gamma[c] \div (IF q.var = 4 THEN 2 ELSE 1)]
+BN_X(q) == IF q.op = "Gemm" THEN T("f32", <<2, 2>>, <<1, 2, 3, 4>>) ELSE T("f32", <<1, 2, 3>>, <<1, 2, 3, 4, 5, 6>>)
+\* weights: Gemm [K=2, N=2] (stored [N, K] with transB); Conv [M=2, C/g, 1]; ConvTranspose [C=2, M/g, 1]
+BN_WData(q) == IF q.op = "Gemm" \/ q.g = 1 THEN <<1, -1, 2, 3>> ELSE <<2, -3>>
+BN_WShape(q) == IF q.op = "Gemm" THEN <<2, 2>> ELSE <<2, 2 \div q.g, 1>>
+BN_BiasT(q) == CASE q.bias = "absent" -> NoT [] q.bias = "vec" -> T("f32", <<2>>, <<5, -2>>)
+                 [] q.bias = "scalar" -> T("f32", <<>>, <<5>>) [] q.bias = "row" -> T("f32", <<1, 2>>, <<5, -2>>)
+\* the inbound operator on weights wd (row-major data of BN_WShape) and bias tensor b (or NoT)
+BN_Inbound(q, wd, b) ==
+   IF q.op = "Gemm"
+   THEN Gemm(BN_X(q), T("f32", <<2, 2>>, wd), b, FALSE, q.tb, AttrI(q.alpha, 1), AttrI(q.beta, 1))
+   ELSE LET x == BN_X(q)
+            \* weight connecting input channel c to output channel m (0-based), 0 when they are in different groups
+            Wt(c, m) == IF q.g = 1 THEN (IF q.op = "Conv" THEN wd[m * 2 + c + 1] ELSE wd[c * 2 + m + 1])
+                        ELSE (IF c = m THEN wd[m + 1] ELSE 0)
+            Op(idx) == SeqSum([c \in 1..2 |-> At(x, <<0, c - 1, idx[3]>>) * Wt(c - 1, idx[2])]) + (IF b = NoT THEN 0 ELSE b.data[idx[2] + 1])
+        IN FromFn("f32", <<1, 2, 3>>, Op)
+BN_Norm(t, q) == IF IsErr(t) THEN ERR
+                 ELSE LET Ch(i) == IF q.op = "Gemm" THEN ((i - 1) % 2) + 1 ELSE (((i - 1) \div 3) % 2) + 1 IN
+                      T("f32", t.shape, [i \in 1..Len(t.data) |-> (t.data[i] - BN_Mean[Ch(i)]) * BN_S(q)[Ch(i)] + BN_Beta[Ch(i)]])
+BN_Lhs(q) == BN_Norm(BN_Inbound(q, BN_WData(q), BN_BiasT(q)), q)
+BN_Match(q, devs) == TRUE
+BN_Check(q, devs) ==
+   \* every parameter must be an initializer that is not a graph input; inbound weights / bias not shared with other nodes
+   IF q.pkind # "init" \/ q.wkind # "init" THEN "fail"
+   ELSE IF q.shared THEN "fail"
+   \* design: the fused bias goes through Gemm's beta
+   ELSE IF "bn_gemm_beta" \notin devs /\ q.op = "Gemm" /\ AttrI(q.beta, 1) # 1 THEN "fail"
+   ELSE "ok"
+BN_Rewrite(q, devs) ==
+   LET s == BN_S(q)
+       wd == BN_WData(q)
+       \* output channel of weight element i (1-based) as _scale_weights sees it
+       OutCh(i) == IF q.op = "Gemm" THEN (IF q.tb THEN ((i - 1) \div 2) + 1 ELSE ((i - 1) % 2) + 1)
+                   ELSE IF q.g = 2 THEN i
+                   ELSE IF q.op = "Conv" THEN ((i - 1) \div 2) + 1 ELSE ((i - 1) % 2) + 1
+       fw == [i \in 1..Len(wd) |-> wd[i] * s[OutCh(i)]]
+       b == BN_BiasT(q)
+       \* (original_bias - mean) * scale + beta with numpy broadcasting of the bias against the [2] vectors
+       fshape == IF b = NoT THEN <<2>> ELSE BroadcastShape(b.shape, <<2>>)
+       Bv(c) == IF b = NoT THEN 0 ELSE IF Len(b.data) = 1 THEN b.data[1] ELSE b.data[c]
+       fb == T("f32", fshape, [c \in 1..2 |-> (Bv(c) - BN_Mean[c]) * s[c] + BN_Beta[c]])
+   IN Res(BN_Inbound(q, fw, fb), TRUE)
+BN_Unknown(q) == q.pkind \in {"ginput", "ginit"} \/ q.wkind \in {"ginput", "ginit"}
+
+-----------------------------------------------------------------------------
 (* dispatch *)
 ParamsOf(f) == CASE f = "relus_clips" -> RC_Params(0)
       [] f = "min_max" -> MM_Params(0)
@@ -941,6 +1049,8 @@ ParamsOf(f) == CASE f = "relus_clips" -> RC_Params(0)
       [] f = "gemm_matmul_add" -> GM_Params(0)
       [] f = "optional_bias" -> OB_Params(0)
       [] f = "pad_conv" -> PC_Params(0)
+      [] f = "conv_affine" -> CF_Params(0)
+      [] f = "batchnorm" -> BN_Params(0)
       [] f = "expand_binop" -> EX_Params(0)
       [] f = "materialize" -> MR_Params(0)
       [] f = "collapse_slices" -> CS_Params(0)
@@ -964,6 +1074,8 @@ LhsOf(f, q) == CASE f = "relus_clips" -> RC_Lhs(q)
       [] f = "gemm_matmul_add" -> GM_Lhs(q)
       [] f = "optional_bias" -> OB_Lhs(q)
       [] f = "pad_conv" -> PC_Lhs(q)
+      [] f = "conv_affine" -> CF_Lhs(q)
+      [] f = "batchnorm" -> BN_Lhs(q)
       [] f = "expand_binop" -> EX_Lhs(q)
       [] f = "materialize" -> MR_Lhs(q)
       [] f = "collapse_slices" -> CS_Lhs(q)
@@ -987,6 +1099,8 @@ MatchOf(f, q, d) == CASE f = "relus_clips" -> RC_Match(q, d)
       [] f = "gemm_matmul_add" -> GM_Match(q, d)
       [] f = "optional_bias" -> TRUE
       [] f = "pad_conv" -> PC_Match(q, d)
+      [] f = "conv_affine" -> CF_Match(q, d)
+      [] f = "batchnorm" -> BN_Match(q, d)
       [] f = "expand_binop" -> EX_Match(q, d)
       [] f = "materialize" -> MR_Match(q, d)
       [] f = "collapse_slices" -> CS_Match(q, d)
@@ -1010,6 +1124,8 @@ CheckOf(f, q, d) == CASE f = "relus_clips" -> RC_Check(q, d)
       [] f = "gemm_matmul_add" -> GM_Check(q, d)
       [] f = "optional_bias" -> OB_Check(q, d)
       [] f = "pad_conv" -> PC_Check(q, d)
+      [] f = "conv_affine" -> CF_Check(q, d)
+      [] f = "batchnorm" -> BN_Check(q, d)
       [] f = "expand_binop" -> EX_Check(q, d)
       [] f = "materialize" -> MR_Check(q, d)
       [] f = "collapse_slices" -> CS_Check(q, d)
@@ -1033,6 +1149,8 @@ RewriteOf(f, q, d) == CASE f = "relus_clips" -> RC_Rewrite(q, d)
       [] f = "gemm_matmul_add" -> GM_Rewrite(q, d)
       [] f = "optional_bias" -> OB_Rewrite(q, d)
       [] f = "pad_conv" -> PC_Rewrite(q, d)
+      [] f = "conv_affine" -> CF_Rewrite(q, d)
+      [] f = "batchnorm" -> BN_Rewrite(q, d)
       [] f = "expand_binop" -> EX_Rewrite(q, d)
       [] f = "materialize" -> MR_Rewrite(q, d)
       [] f = "collapse_slices" -> CS_Rewrite(q, d)
@@ -1056,6 +1174,8 @@ UnknownOf(f, q) == CASE f = "relus_clips" -> RC_Unknown(q)
       [] f = "gemm_matmul_add" -> GM_Unknown(q)
       [] f = "optional_bias" -> OB_Unknown(q)
       [] f = "pad_conv" -> PC_Unknown(q)
+      [] f = "conv_affine" -> CF_Unknown(q)
+      [] f = "batchnorm" -> BN_Unknown(q)
       [] f = "expand_binop" -> EX_Unknown(q)
       [] f = "materialize" -> MR_Unknown(q)
       [] f = "collapse_slices" -> CS_Unknown(q)
@@ -1114,7 +1234,9 @@ DevsOf(f) == CASE f = "relus_clips" -> {"relu_clip_negmax", "clip_clip_disjoint"
                [] f = "matmul_add_gemm" -> {"matmul_add_gemm_bias_shape"}
                [] f = "gemm_matmul_add" -> {"gemm_matmul_add_ignores_attrs", "reshape_matmul_ignores_inner_shapes", "gemm_matmul_add_bias_shape"}
                [] f = "optional_bias" -> {"overridable_read_as_const"}
-               [] f = "pad_conv" -> {"overridable_read_as_const", "pad_convinteger_zero_point", "autopad_ignores_dilation"}
+               [] f = "batchnorm" -> {"bn_gemm_beta"}
+               [] f = "conv_affine" -> {"overridable_read_as_const", "conv_affine_scalar_rank"}
+               [] f = "pad_conv" -> {"overridable_read_as_const", "pad_convinteger_zero_point", "autopad_ignores_dilation", "conv_affine_scalar_rank", "bn_gemm_beta"}
                [] f \in {"collapse_slices", "no_op_expand", "reshape_reshape", "unsqueeze2", "squeeze_reshape", "scatter_dynamic"} -> {"overridable_read_as_const"}
                [] OTHER -> {}
 Why(f, q) == {d \in Deviations \cap DevsOf(f) : Attempt(f, q, Deviations \ {d}) # Attempt(f, q, Deviations)}
